@@ -33,6 +33,8 @@ structure Sub where
   replayDue : Bool := true        -- completeness of the replay is required (not after a session resume)
   lossy : Bool := false          -- resumed QoS 0 subscription: forwards read but not drained before the
                                  -- disconnect are lost (at most once), so the first forward may skip ahead
+  regrant : Option Nat := none   -- a later SUBSCRIBE to the same filter asked for (and its SUBACK granted, see
+                                 -- `c06-suback-codes`) another QoS than the one this subscription delivers with
 deriving Repr
 
 /-- forwarded QoS>0 entry awaiting the client's acknowledgement (C08 resume point, C09 window) -/
@@ -126,6 +128,13 @@ def sameMessage (f e : Pub) : Bool :=
   f.payload == e.payload && (f.topic == e.topic || (f.topic.isEmpty && f.alias.isSome))
 
 def listSet {α} (l : List α) (i : Nat) (a : α) : List α := l.set i a
+
+/-- the granted-QoS verdict is reported only when the attribution itself has nothing to report; the monitor
+    state is the one the attribution computed either way (so that no other monitor is disturbed) -/
+def withRegrant (rf : Option (String × String)) (r : α × Option (String × String)) : α × Option (String × String) :=
+  match r.2, rf with
+  | none, some _ => (r.1, rf)
+  | _, _ => r
 
 /-- first position `a ≥ start`, `a < bound`, whose entry carries forward `f` (`l` = the history from `start` on) -/
 def findFrom (l : List Pub) (start bound : Nat) (f : Pub) : Option Nat :=
@@ -267,6 +276,15 @@ def observeForward (m : MonState) (l : Nat) (f : Pub) : MonState × Fail :=
       | some i => if unique then { lm with subs := (lm.subs.zipIdx).map (fun (s, j) => if j == i then { s with lossy := false } else s) } else lm
       | none => lm
     let m := setL m l lm
+    -- C01: delivered with the QoS the latest SUBACK for that filter granted
+    let regrantFail : Fail := match (if unique then si else none) with
+      | some i => (match lm.subs[i]? with
+        | some s => (match s.regrant with
+          | some q' => some ("granted-qos-c01", s!"forward qos={f.qos} pkid={f.pkid} payload={showBytes f.payload} came through subscription {s.path} which delivers with QoS {s.qos}, but the latest SUBSCRIBE to that filter was granted QoS {q'} (re-subscription with another QoS updates the SUBACK, not the tracked request)")
+          | none => none)
+        | none => none)
+      | none => none
+    withRegrant regrantFail <|
     -- C17: through a group every entry goes to at most one member, never twice
     if !unique then
       -- the forward belongs to one of several subscriptions: every candidate group may have delivered it
@@ -523,7 +541,11 @@ def applyGhost (m : MonState) (g : Ghost) : MonState × Fail :=
         | some g => if m.groups.any (fun x => x.name == g && x.idx == idx) then touchGroups m lm.clientId
                     else touchGroups { m with groups := m.groups ++ [{ name := g, idx }] } lm.clientId
         | none => m
-      if !isNew then (m, none) else
+      if !isNew then
+        -- C01 "the subscription's granted QoS": the latest SUBSCRIBE to a filter decides what was granted
+        let subs := lm.subs.map (fun s => if s.path == path && s.group == group && s.closedAt.isNone
+          then { s with regrant := if s.qos == qos then none else some qos } else s)
+        (setL m l { lm with subs := subs }, none) else
       -- a member may be handed any entry the group has not delivered yet (the group's cursor,
       -- not the member's, decides), in increasing order per member
       let start := if group.isSome then 0 else cursor.2
@@ -602,7 +624,7 @@ def markAdversary (m : MonState) (l : Nat) : MonState :=
 /-- which tags count as a violation of which property -/
 def relevant (prop tag : String) : Bool :=
   let pre (p : String) := tag.startsWith p
-  if prop == "C01" then pre "c01-"
+  if prop == "C01" then pre "c01-" || tag == "granted-qos-c01"
   else if prop == "C03" then pre "c03-" || tag == "router-panic" || tag == "router-halt"
   else if prop == "C06" then pre "c06-"
   else if prop == "C08" then pre "c08-" || pre "c01-"
